@@ -90,11 +90,19 @@ func (d *decoder) bytes(buf []byte) []byte {
 	}
 	if len(buf) >= n {
 		buf = buf[:n]
-	} else {
-		buf = make([]byte, n)
+		d.read(buf)
+		return buf
 	}
-	d.read(buf)
-	return buf
+	// The announced length comes from the peer and cannot be trusted for
+	// allocation; only allocate for bytes that actually arrive.
+	bs, err := io.ReadAll(io.LimitReader(d.r, int64(n)))
+	d.n += int64(len(bs))
+	if err != nil {
+		d.err = err
+	} else if len(bs) < n {
+		d.err = io.ErrUnexpectedEOF
+	}
+	return bs
 }
 
 func (d *decoder) str() string {
